@@ -174,6 +174,34 @@ CHECKS['C27'] = _stack('Seeded search over every LL control opcode (known, unkno
 CHECKS['C29'] = _stack('Seeded search over connect requests, lost first events, updates, remote and local terminations, supervision and procedure timeouts: the recorded application callbacks of every connection must match '
                        'requested, (established | attempt timeout), changed*, closed(reason) exactly once and in order, and nothing may be reported for a connection that was not requested.', _ST + 'callback order grammar')
 
+
+_SM = {'harness': 'sm_sim', 'binary': 'sm_sim'}
+_SM_NOTE = ('trusted: the reference SMP initiator and responder model in harness/sm_sim.cpp (c1, s1, f4, f5, f6, g2 and P-256 written from Core Vol 3 Part H on top of OpenSSL; it agrees with the real tool box on every '
+            'completed pairing, otherwise the keys would differ), the stub user / OOB / bond data base objects and the emulated RNG and ECB registers; real code: the three security manager implementations with their '
+            'connection data, io_capabilities, oob_authentication, bonding glue, nrf52 security_tool_box.cpp and uECC; 16 compiled configurations (legacy/LESC/combined x IO capabilities x OOB x bonding)')
+_SM_ASSUME = ['the link layer resets the connection data on a new connection and sets is_encrypted only after a key was found (as link_layer.hpp does); forced encryption changes are injected as faults',
+              'the user answers each yes/no question at most once, possibly after the pairing or the connection it belongs to is gone',
+              'error codes of Pairing Failed are not checked (the properties do not name them)']
+def _sm(text, technique, expl=''):
+    return {'harnesses': [_SM], 'technique': technique, 'design_ref': 'DESIGN.md 4.3, 6', 'level_text': text + ' Sampling, not proof.', 'level_note': _SM_NOTE, 'assumptions': _SM_ASSUME, 'explanation': expl}
+_SMT = 'deterministic simulation of the security manager against a reference SMP initiator, a simulated user, link layer and bond data base: '
+CHECKS['C32'] = _sm('Seeded search over SMP histories: honest legacy and LESC flows (just works, passkey display/input, OOB, numeric comparison) with dropped, repeated, swapped, malformed, wrong-valued and foreign PDUs, '
+                    'user answers before, between and after the DHKey check or after the pairing/connection is gone, polls at arbitrary steps. A responder model decides for every PDU whether it is in order and valid; '
+                    'anything else must be answered with Pairing Failed and a following valid Pairing Request must be accepted; the peripheral random is revealed only if the confirm value verifies; a DHKey check is emitted '
+                    '(by response or by poll) only after a valid DHKey check of the central was received in this exchange; no pairing PDU is emitted when no step is due.', _SMT + 'protocol-order automaton, reveal-after-verify')
+CHECKS['C33'] = _sm('Same world as C32. After every step find_key() is probed with EDIV/Rand (0,0), values of every bond created so far, and unrelated values: a key may only be offered if a pairing completed on this '
+                    'connection since the last failure/disconnect (and EDIV=Rand=0) or the bond data base holds that EDIV/Rand for this peer; the offered key must equal the STK/LTK the reference initiator derived, '
+                    'respectively the stored bond. Faults: failed, aborted and repeated pairings, late user answers, disconnect/reconnect to the same or another peer with a durable bond data base.', _SMT + 'key offer vs. pairing history and bond data base')
+CHECKS['C34'] = _sm('Same world as C32 with bonding configurations biased up. Encryption Information and Central Identification may only leave l2cap_output() while the link is encrypted, at most once each per completed '
+                    'legacy pairing on this connection, never before completion, and with the key material of a bond that was created; no outgoing PDU on an unencrypted link may contain a created long term key. '
+                    'Encryption is switched on by key requests and on/off as an injected fault between any two steps.', _SMT + 'key distribution vs. encryption state')
+CHECKS['C35'] = _sm('Same world as C32. After every step local_device_pairing_status() must be no_key unless a pairing completed, authenticated_key exactly if the exchange that actually took place authenticated the peer '
+                    '(legacy: temporary key from a generated/entered passkey or OOB data, observed at the stubs; LESC: numeric comparison that the user confirmed), unauthenticated_key otherwise. The initiator also drives '
+                    'plain just-works message flows with IO capabilities / OOB flags that select other methods.', _SMT + 'reported status vs. executed exchange')
+CHECKS['C38'] = _sm('The RNG register of the emulated nRF52 is a seeded byte stream (uniform, biased high, biased low, runs of 0xff). Every passkey generated for display during legacy passkey entry and up to 200000 direct '
+                    'draws of create_passkey() per run must lie in 000000..999999 with all upper bytes zero; on uniform streams 20 equal buckets and 7 ranges that modulo reductions would favour must be within 7 sigma.',
+                    'deterministic simulation: seeded RNG register streams, range check of every generated passkey and coarse uniformity statistics', 'Fine bias (below about 1 %) is not decidable by sampling and not claimed.')
+
 # properties that are deliberately not decided by simulation (see DESIGN.md section 7)
 NOT_APPLICABLE = {
     'C04': 'compile-time mapping of the declaration to handles: no schedule, clock, fault or history can influence it (DESIGN.md 7); mapping errors still surface under C02/C03, whose model has an independent handle table',
